@@ -4,12 +4,22 @@ import itertools
 import random
 
 RULE = ('case = (order in {subset of a bit set, divisibility}, start element list, cache on/off, with/without a correct '
-        'children_dict, history of operations); every operation of the history is executed on a real POSet and on the '
-        'Lean model, its answer is compared with the Lean Fresh value (the proved value), and a full observation '
-        '(all leq pairs, descendants/ancestors/children/parents of every index, tops, bottoms, join and meet of '
-        'everything) taken on a deep copy is compared with Fresh after the last step (exhaustive stream: every prefix is '
-        'a history of its own) or after every step (random streams); non-trivial = the history contains a mutation and '
-        'the start list has two comparable elements or the history adds one; distinct = distinct case')
+        'children_dict, hostile-constructor flag, history of operations); every operation of the history is executed on a '
+        'real POSet and on the Lean model, its answer is compared with the Lean Fresh value (the proved value), and a '
+        'full observation (all leq pairs, descendants/ancestors/children/parents of every index, tops, bottoms, join '
+        'and meet of everything; for <= 4 elements also of every pair, index of every element, == reversed copy) is '
+        'compared with Fresh after the last step (enumerated streams) or, on a deep copy, after every step (random '
+        'streams).  History operations beyond the model operations: mut = run a query and mutate the RETURNED '
+        'set/list in place (clear it / add a foreign index) - for the model it is the plain query; dict = read '
+        'children_dict/parents_dict/descendants_dict/ancestors_dict (= the queries it stands for), optionally mutating '
+        'the returned dict and its values.  Streams: corpus; alias (H2: every returned value mutated in place, after '
+        'nothing / add with and without filling / fill_up_caches / add+del); dictmemo (H1: read a *_dict or join/meet, '
+        'net-zero-size remove+add / add+remove / del+add, read again); bigcd (H3: 10..13 elements, two-digit '
+        'indexes, children_dict beyond the comparison-table limit, hostile constructor arguments: containers emptied '
+        'after construction, one-shot generator); nongraded (H3: add with filling into every poset of 5 and 6 subsets '
+        'of a 4-set up to atom permutations, ascending and descending); exhaustive; random; malformed.  '
+        'non-trivial = the history contains a mutation and the start list has two comparable elements or the history '
+        'adds one; distinct = distinct case')
 _ALPHA = ('operation alphabet at a poset with n elements: leq(i,j) all pairs; descendants/ancestors/children/parents(i) '
           'all i; tops; bottoms; join([]), meet([]), join([i,j]), meet([i,j]) i<j; index(first); ==(reversed copy); '
           'fill_up_caches; add(e, fill) for every absent e of the 8 subsets x fill in {True, False}; add(present) '
@@ -18,10 +28,13 @@ _ALPHA = ('operation alphabet at a poset with n elements: leq(i,j) all pairs; de
           'covered too); after it the full observation is taken (all leq pairs, the four relations of every index, '
           'tops, bottoms, join/meet of everything and of every pair, index of every element, == reversed copy).')
 EXHAUSTIVE = {
-    'quick': 'all histories of length <= 3 over every start set of <= 3 of the 8 subsets of a 3-set (one representative '
-             'per orbit of the atom permutations, elements listed ascending), cache on (cold); cache on with '
-             'children_dict and cache off: length <= 2; ' + _ALPHA,
-    'thorough': 'the quick scope over all 93 start sets of <= 3 subsets (ascending; orbit representatives also '
+    'quick': 'all histories of length <= 2 over every start set of <= 3 of the 8 subsets of a 3-set (one representative '
+             'per orbit of the atom permutations, elements listed ascending), cache on (cold) / cache on with '
+             'children_dict / cache off; all histories of length 3, cache on (cold), over the start sets of <= 2 elements '
+             'and every 4th history (offset VERIF_SEED mod 4) over the start sets of 3 elements (all of them when the '
+             'anchored source drifted, and in the thorough tier); the alias, dictmemo, bigcd and nongraded streams are '
+             'enumerated completely; ' + _ALPHA,
+    'thorough': 'the quick scope (no sampling) over all 93 start sets of <= 3 subsets (ascending; orbit representatives also '
                 'descending), plus children_dict starts with length 3 (first operation a mutation), plus length 4 from '
                 'the empty poset and from the one-element poset [{}], cache on, plus start sets of 4 elements (orbit '
                 'representatives) with length <= 2; ' + _ALPHA,
@@ -40,7 +53,7 @@ ASSUMPTIONS = ['start elements pairwise distinct; leq is a partial order on all 
                'a children_dict passed to the constructor is the true cover relation of the start elements']
 TRUSTED = ['set iteration order inside POSet (list(frozenset)) is modelled by an arbitrary order parameter; it does not '
            'influence any answer (theorems quantify over it), only which cache entries exist']
-CHUNK = 1500
+CHUNK = 400
 
 LEQ = {'subset': (lambda a, b: a & b == a), 'divides': (lambda a, b: a != 0 and b % a == 0)}
 REL = ('descendants', 'ancestors', 'children', 'parents')
@@ -64,6 +77,30 @@ def next_elems(E, op):
     if nm == 'remove':
         return [x for x in E if x != op[1]]
     return E
+
+
+DICTS = ('children', 'parents', 'descendants', 'ancestors')
+
+
+def xops(op, E):
+    """model operations a history operation stands for (the model has no aliasing: reading a `*_dict` is the
+    sequence of the queries it makes, a hostile in-place mutation of a returned value is just the query)"""
+    nm = op[0]
+    if nm == 'mut':                      # ['mut', how, query-op]
+        return [op[2]]
+    if nm == 'dict':                     # ['dict', which] / ['dict', which, how]
+        return [[op[1], i] for i in range(len(E))]
+    return [op]
+
+
+def expand(c):
+    """[(model op, index of the history op)] for the whole history"""
+    E = list(c['elems'])
+    out = []
+    for h, op in enumerate(c['ops']):
+        out += [(x, h) for x in xops(op, E)]
+        E = next_elems(E, op)
+    return out
 
 
 def obs_ops(E):
@@ -129,6 +166,47 @@ def apply_op(P, op, order, use_cache):
         return {'err': type(e).__name__}
 
 
+def _hostile(r, how, n, avoid):
+    """mutate a RETURNED value in place if it is mutable (on the correct code returned sets are frozensets or copies,
+    lists/dicts are freshly built: nothing inside the poset may change)"""
+    foreign = next((j for j in range(n) if j != avoid and not (hasattr(r, '__contains__') and j in r)), n + 3)
+    try:
+        if isinstance(r, set):
+            r.clear() if how == 'clear' else r.add(foreign)
+        elif isinstance(r, list):
+            r.clear() if how == 'clear' else r.append(foreign)
+        elif isinstance(r, dict):
+            for v in list(r.values()):
+                _hostile(v, how, n, avoid)
+            r.clear() if how == 'clear' else r.__setitem__(n + 3, frozenset())
+    except Exception:
+        pass
+
+
+def apply_mut(P, how, q, order):
+    """run query op q, canonicalise its answer, then mutate the returned object in place"""
+    nm = q[0]
+    try:
+        raw = getattr(P, nm)(q[1]) if nm in REL else getattr(P, nm)
+    except (IndexError, KeyError, ValueError, TypeError, AssertionError) as e:
+        return {'err': type(e).__name__}
+    out = sorted(int(v) for v in raw) if nm in REL else {'l': [int(v) for v in raw]}
+    _hostile(raw, how, len(P), q[1] if nm in REL else -1)
+    return out
+
+
+def apply_dict(P, which, how):
+    n = len(P)
+    try:
+        d = getattr(P, which + '_dict')
+        outs = [sorted(int(v) for v in d[i]) for i in range(n)]
+    except (IndexError, KeyError, ValueError, TypeError, AssertionError) as e:
+        return [{'err': type(e).__name__}] * n
+    if how is not None:
+        _hostile(d, how, n, -1)
+    return outs
+
+
 def dump_state(P):
     if not getattr(P, '_use_cache', False):
         return None
@@ -145,29 +223,57 @@ def observe(P, order, in_place=False):
     return [apply_op(Q, o, order, None) for o in obs_ops([int(x) for x in Q.elements])]
 
 
-def impl(c):
+def build(c):
     from fcapy.poset import POSet
     order, E = c['order'], list(c['elems'])
+    hostile = c.get('hostile', 0)
+    if c['use_cache'] and c.get('cd'):
+        # hostile caller: mutable containers that are emptied right after the constructor returned
+        cd = {k: (set(v) if hostile else frozenset(v)) for k, v in covers(order, E)}
+        E_in = list(E)
+        P = POSet(E_in, LEQ[order], use_cache=True, children_dict=cd)
+        if hostile:
+            E_in.clear()
+            for v in cd.values():
+                v.clear()
+            cd.clear()
+        return P
+    if hostile == 2:
+        return POSet((x for x in E), LEQ[order], use_cache=bool(c['use_cache']))      # one-shot iterable
+    E_in = list(E)
+    P = POSet(E_in, LEQ[order], use_cache=bool(c['use_cache']))
+    if hostile:
+        E_in.clear()
+    return P
+
+
+def impl(c):
+    order = c['order']
     try:
-        if c['use_cache'] and c.get('cd'):
-            cd = {k: frozenset(v) for k, v in covers(order, E)}
-            P = POSet(E, LEQ[order], use_cache=True, children_dict=cd)
-        else:
-            P = POSet(E, LEQ[order], use_cache=bool(c['use_cache']))
+        P = build(c)
     except Exception as e:
         return {'init_err': type(e).__name__}
     steps = []
     last = len(c['ops']) - 1
     mode = c.get('observe', 'all')
     for k, op in enumerate(c['ops']):
-        st = {'out': apply_op(P, op, order, c['use_cache'])}
-        if c.get('state'):
-            st['state'] = dump_state(P)
-        if mode == 'all':
-            st['obs'] = observe(P, order)
-        elif mode == 'last' and k == last:
-            st['obs'] = observe(P, order, in_place=True)    # the poset is discarded afterwards
-        steps.append(st)
+        if op[0] == 'mut':
+            sts = [{'out': apply_mut(P, op[1], op[2], order)}]
+        elif op[0] == 'dict':
+            sts = [{'out': o} for o in apply_dict(P, op[1], op[2] if len(op) > 2 else None)]
+        else:
+            sts = [{'out': apply_op(P, op, order, c['use_cache'])}]
+        for st in sts:
+            st['h'] = k
+        if sts:
+            st = sts[-1]
+            if c.get('state'):
+                st['state'] = dump_state(P)
+            if mode == 'all':
+                st['obs'] = observe(P, order)
+            elif mode == 'last' and k == last:
+                st['obs'] = observe(P, order, in_place=True)    # the poset is discarded afterwards
+        steps += sts
     return {'steps': steps}
 
 
@@ -175,7 +281,8 @@ def impl(c):
 def requests(c):
     cd = covers(c['order'], c['elems']) if (c['use_cache'] and c.get('cd')) else None
     return [dict(op='C09.run', order=c['order'], elems=c['elems'], use_cache=bool(c['use_cache']),
-                 children_dict=cd, ops=c['ops'], observe=c.get('observe', 'all'), state=bool(c.get('state')))]
+                 children_dict=cd, ops=[x for x, _ in expand(c)], observe=c.get('observe', 'all'),
+                 state=bool(c.get('state')))]
 
 
 def _first_divergence(c, io, rep):
@@ -188,7 +295,12 @@ def _first_divergence(c, io, rep):
     if not r.get('init_check', True):
         return (-1, 'init', 'harness', 'the model state built from children_dict fails invCheck (the theorem does '
                                        'not apply to this start state)')
-    for k, (op, si, sm) in enumerate(zip(c['ops'], io['steps'], r['steps'])):
+    xs = expand(c)
+    if not (len(xs) == len(io['steps']) == len(r['steps'])):
+        return (-1, 'len', 'harness', f'step counts differ: history expands to {len(xs)} model operations, '
+                                      f'implementation side has {len(io["steps"])}, model {len(r["steps"])}')
+    for (xop, h), si, sm in zip(xs, io['steps'], r['steps']):
+        k, op = h, (c['ops'][h] if c['ops'][h] == xop else [c['ops'][h], xop])
         if sm['ok']:
             if sm['out'] != sm['fresh']:
                 return (k, 'out', 'harness', f'step {k} {op}: model {sm["out"]} != Fresh {sm["fresh"]} although the '
@@ -242,12 +354,15 @@ def nontrivial(c):
 
 
 def key(c):
-    return [c['order'], c['elems'], bool(c['use_cache']), bool(c.get('cd')), c['ops']]
+    return [c['order'], c['elems'], bool(c['use_cache']), bool(c.get('cd')), c['ops'], c.get('hostile', 0)]
 
 
 def branch(c, io, rep):
     out = [c['stream'], ('cache' if c['use_cache'] else 'nocache') + (':cd' if c.get('cd') else '')]
-    out += ['op:' + o[0] + (':fill' if o[0] == 'add' and o[2] else '') for o in c['ops']]
+    out += ['op:' + o[0] + (':fill' if o[0] == 'add' and o[2] else '') + (':' + o[2][0] if o[0] == 'mut' else '')
+            + (':' + o[1] if o[0] == 'dict' else '') for o in c['ops']]
+    if c.get('hostile'):
+        out.append('hostile-ctor:%d' % c['hostile'])
     r = rep[0]
     if 'steps' in r and 'steps' in io:
         for si, sm in zip(io['steps'], r['steps']):
@@ -314,6 +429,9 @@ def shrink(c):
                 return [nm, [x - (x > i) for x in op[1] if x != i]]
             if nm == 'eq':
                 return [nm, [x for x in op[1] if x != E[i]]]
+            if nm == 'mut':
+                q = fix(op[2])
+                return None if q is None else ['mut', op[1], q]
             return op
         # only sound while no mutation precedes (positions move); try anyway, the verdict decides
         nops = [fix(o) for o in ops]
@@ -322,7 +440,15 @@ def shrink(c):
         d['ops'] = [o for o in nops if o is not None]
         d['observe'] = 'all'
         yield d
+    if c.get('hostile'):
+        d = dict(c)
+        d['hostile'] = 0
+        yield d
     for i, o in enumerate(ops):
+        if o[0] == 'mut':                   # the plain query instead of the hostile one
+            d = dict(c)
+            d['ops'] = ops[:i] + [o[2]] + ops[i + 1:]
+            yield d
         if o[0] in ('join', 'meet') and len(o[1]) > 0:
             for j in range(len(o[1])):
                 d = dict(c)
@@ -412,11 +538,13 @@ def _exh(E, cfg, length, stream='exhaustive', first_mutation=False):
 COLD, WITHCD, NOCACHE = (True, False), (True, True), (False, False)
 
 
-def _exhaustive(tier, boost):
-    thorough = tier == 'thorough' or boost
+def _exhaustive(tier, boost, seed=0):
+    """exhaustive histories; yields the short ones (length <= 2) first"""
+    thorough = tier == 'thorough'
     starts = [s for s in start_sets(3, reps_only=True)]
     if thorough:
         starts += [s[::-1] for s in start_sets(3, reps_only=True) if len(s) > 1]
+    if thorough:
         have = {tuple(s) for s in starts}
         starts += [s for s in start_sets(3, reps_only=False) if tuple(s) not in have]
     for E in starts:
@@ -424,7 +552,14 @@ def _exhaustive(tier, boost):
             yield from _exh(E, COLD, L)
             yield from _exh(E, WITHCD, L)
             yield from _exh(E, NOCACHE, L)
-        yield from _exh(E, COLD, 3)
+    yield 'deep'                                   # marker: the caller interleaves the other streams here
+    for E in starts:
+        if thorough or boost or len(E) < 3:
+            yield from _exh(E, COLD, 3)
+        else:                                      # quick: every 4th history, the offset moves with VERIF_SEED
+            for k, c in enumerate(_exh(E, COLD, 3)):
+                if k % 4 == seed % 4:
+                    yield c
         if thorough:
             yield from _exh(E, WITHCD, 3, first_mutation=True)
     if thorough:
@@ -436,6 +571,120 @@ def _exhaustive(tier, boost):
             for L in (1, 2):
                 yield from _exh(list(s), COLD, L, stream='exhaustive-4elems')
                 yield from _exh(list(s), WITHCD, L, stream='exhaustive-4elems')
+
+
+# ---- directed streams (deterministic, cheap, run first) -----------------------------------------------------
+def _case(stream, E, cfg, ops, order='subset', **kw):
+    return dict(stream=stream, order=order, elems=list(E), use_cache=cfg[0], cd=cfg[1], ops=ops, observe='last', **kw)
+
+
+def _after(E, ops):
+    for o in ops:
+        E = next_elems(E, o)
+    return E
+
+
+def _alias():
+    """(H2) every relation set / tops-bottoms list / *_dict a query returns is mutated in place by the caller
+    (cleared, or a foreign index added) and then everything is asked again: on the correct code the returned values
+    are frozensets or copies, so nothing inside the poset may change"""
+    for E in start_sets(3, reps_only=True):
+        absent = [e for e in U3 if e not in E]
+        pres = [[]] + [[['add', e, True]] for e in absent] + [[['add', absent[0], False]], [['fill', 'all']]]
+        if E:
+            pres += [[['add', absent[0], True], ['del', 0]]]
+        for cfg in (COLD, WITHCD):
+            for pre in pres:
+                n = len(_after(E, pre))
+                qs = [[r, i] for r in REL for i in range(n)] + [['tops'], ['bottoms']]
+                for how in ('clear', 'add'):
+                    for q in qs:
+                        yield _case('alias', E, cfg, pre + [['mut', how, q]])
+                    if n:
+                        for w in DICTS:
+                            yield _case('alias', E, cfg, pre + [['dict', w, how]])
+
+
+def _dictmemo():
+    """(H1) read a *_dict / join / meet, change the poset by a net-zero-size mutation (so that a memo keyed on the
+    size or never invalidated survives), read again - no read in between"""
+    for E in start_sets(3, reps_only=True):
+        if not E:
+            continue
+        absent = [e for e in U3 if e not in E][:3]
+        n = len(E)
+        reads = [['dict', w] for w in DICTS] + [['join', []], ['meet', []]]
+        if n >= 2:
+            reads += [['join', [0, n - 1]], ['meet', [0, n - 1]]]
+        for cfg in (COLD, WITHCD, NOCACHE):
+            for x in {E[0], E[-1]}:
+                for y in absent:
+                    mids = [[['remove', x], ['add', y, True]], [['remove', x], ['add', y, False]],
+                            [['add', y, True], ['remove', x]], [['del', 0], ['add', y, False]]]
+                    for mid in mids:
+                        for rd in reads:
+                            yield _case('dictmemo', E, cfg, [rd] + mid + [rd])
+
+
+U4 = list(range(16))
+
+
+def _orbit_rep4(s):
+    best = None
+    for p in itertools.permutations(range(4)):
+        t = tuple(sorted(sum(((m >> b) & 1) << p[b] for b in range(4)) for m in s))
+        if best is None or t < best:
+            best = t
+    return best
+
+
+_NG = []
+
+
+def _nongraded_starts():
+    if not _NG:
+        seen = set()
+        for k in (5, 6):
+            for s in itertools.combinations(U4, k):
+                r = _orbit_rep4(s)
+                if r not in seen:
+                    seen.add(r)
+                    _NG.append(list(r))
+    return _NG
+
+
+def _nongraded(tier, seed):
+    """(H3) insertion with cache filling into every poset of 5 and 6 subsets of a 4-set (one per orbit of the atom
+    permutations; pentagons and other non graded shapes included), elements listed ascending and descending"""
+    for E0 in _nongraded_starts():
+        absent = [e for e in U4 if e not in E0]
+        for E in (E0, E0[::-1]):
+            for j, x in enumerate(absent):
+                yield _case('nongraded', E, COLD, [['add', x, True]])
+                if tier != 'quick' or j % 2 == seed % 2:
+                    yield _case('nongraded', E, WITHCD, [['add', x, True]])
+
+
+def _bigcd():
+    """(H3) posets of 10..14 elements (two-digit indexes; the constructor stops prefilling the comparison table at 10)
+    with and without children_dict: one or two mutations, all flags"""
+    div = [1, 2, 3, 4, 6, 8, 9, 12, 18, 24, 27, 36, 54, 72, 108, 216]
+    mix = [5, 0, 12, 3, 9, 15, 6, 1, 10, 7, 2, 8, 4, 14]
+    bases = [('subset', U4[:10], U4), ('subset', U4[:13], U4), ('subset', U4[::-1][:11], U4), ('subset', mix[:12], U4),
+             ('divides', div[:10], div), ('divides', div[::-1][:13], div)]
+    for order, E, uni in bases:
+        absent = [e for e in uni if e not in E][:3]
+        n = len(E)
+        for cfg, hostile in ((WITHCD, 0), (WITHCD, 1), (COLD, 0), (COLD, 2), (NOCACHE, 1)):
+            pres = [[], [['del', 3]], [['descendants', n - 1]], [['remove', E[-1]]], [['dict', 'parents']]]
+            for pre in pres:
+                for x in absent:
+                    for fill in (False, True):
+                        yield _case('bigcd', E, cfg, pre + [['add', x, fill]], order=order, hostile=hostile)
+                        yield _case('bigcd', E, cfg, pre + [['add', x, fill], ['add', absent[-1], True]], order=order,
+                                    hostile=hostile)
+                for i in (0, 9, n - 1):
+                    yield _case('bigcd', E, cfg, pre + [['del', i]], order=order, hostile=hostile)
 
 
 def _random_history(rng, order, universe, E, use_cache, length, malformed=False):
@@ -470,7 +719,13 @@ def _random_history(rng, order, universe, E, use_cache, length, malformed=False)
                 op = ['eq', O]
         elif r < 0.54 and use_cache:
             op = ['fill', rng.choice(['leq', 'desc', 'anc', 'chil', 'par', 'all'])]
-        elif r < 0.78 or n == 0:
+        elif r < 0.60 and n > 0:
+            if rng.random() < 0.6:
+                q = [rng.choice(REL), rng.randrange(n)] if rng.random() < 0.85 else [rng.choice(['tops', 'bottoms'])]
+                op = ['mut', rng.choice(['clear', 'add']), q]
+            else:
+                op = ['dict', rng.choice(DICTS)] + ([rng.choice(['clear', 'add'])] if rng.random() < 0.5 else [])
+        elif r < 0.80 or n == 0:
             cand = [e for e in universe if e not in E]
             if cand and len(E) < 16 and rng.random() < 0.93:
                 op = ['add', rng.choice(cand), rng.random() < 0.7]
@@ -511,8 +766,9 @@ def _random(tier, rng, boost):
         L = rng.randint(1, 40)
         malformed = (k % 10 == 9)
         ops = _random_history(rng, order, universe, E, use_cache, L, malformed)
+        hostile = rng.choice([0, 0, 1, 1 if cd else 2])
         yield dict(stream='malformed' if malformed else 'random', order=order, elems=E, use_cache=use_cache, cd=cd,
-                   ops=ops, observe='all', state=True)
+                   ops=ops, observe='all', state=True, hostile=hostile)
 
 
 def _corpus():
@@ -529,5 +785,15 @@ def _corpus():
 def gen(tier, seed, boost=False):
     rng = random.Random(seed * 1000003 + 909)
     yield from _corpus()
-    yield from _exhaustive(tier, boost)
+    # cheap directed streams first, then the short exhaustive histories, the random ones, and the long exhaustive ones
+    yield from _alias()
+    yield from _dictmemo()
+    yield from _bigcd()
+    yield from _nongraded(tier, seed)
+    ex = _exhaustive(tier, boost, seed)
+    for c in ex:
+        if c == 'deep':
+            break
+        yield c
     yield from _random(tier, rng, boost)
+    yield from ex
